@@ -7,7 +7,8 @@ CONSTANTS
   MinBuf = 0
   MaxBuf = 3
   RawChoices = {FALSE, TRUE}
+  DevIgnoredWrite = FALSE
   Emit = TRUE
-INVARIANTS TypeOK Prefix ChunkFree ErrSurfaces NoSpurious Later Refines CounterInv AbstractionOK EmitInv
-PROPERTIES Retry RetrySink
+INVARIANTS TypeOK Accounting Prefix ChunkFree ErrSurfaces NoSpurious Later Refines CounterInv AbstractionOK EmitInv
+PROPERTIES Accounted Retry RetrySink
 CHECK_DEADLOCK FALSE
